@@ -51,6 +51,9 @@ type Store struct {
 	// CopyOnGet false (default) returns the stored slice itself like most real drivers' memory
 	// variants do not; true returns a copy.
 	Name string
+	// KeepKeyRef true keeps the caller's key string by reference as the in-repo memory driver
+	// does (exposes callers that pass keys aliasing reused request buffers); default false.
+	KeepKeyRef bool
 }
 
 func New() *Store { return &Store{m: map[string]entry{}, counts: map[string]int{}} }
@@ -80,6 +83,7 @@ func (s *Store) yield(p string) {
 }
 
 func (s *Store) log(op Op) {
+	op.Key = strings.Clone(op.Key)
 	s.seq++
 	op.Seq = s.seq
 	s.Ops = append(s.Ops, op)
@@ -141,6 +145,10 @@ func (s *Store) Set(key string, val []byte, exp time.Duration) error {
 	e := entry{val: append([]byte(nil), val...)}
 	if exp > 0 {
 		e.exp = time.Now().Add(exp)
+	}
+	if !s.KeepKeyRef {
+		// like a network-backed driver: the key is serialised, never retained by reference
+		key = strings.Clone(key)
 	}
 	s.m[key] = e
 	op := Op{Kind: "set", Key: key, Size: len(val), TTL: exp, Found: true}
